@@ -9,7 +9,7 @@ package board
 //@
 //@ define onBoard(sq) = 0 <= sq && sq < 64
 //@ define bitAt(bb, sq) = bit(bb, sq)
-//@ define occOf(b) = b.Colors[0] | b.Colors[1]
+//@ define occB(b) = b.Colors[0] | b.Colors[1]
 //@ define pos(b) = mkPos(b.Pieces[1], b.Pieces[2], b.Pieces[3], b.Pieces[4], b.Pieces[5], b.Pieces[6], b.Colors[0], b.Colors[1], uint8(b.STM), uint8(b.EnPassant), uint8(b.Castles), uint8(b.FiftyCnt), uint64(b.fullMoves))
 //@
 //@ # representation invariant (property C04, second clause): the per-square piece map, the
@@ -30,7 +30,7 @@ package board
 //@ func (*Board).addPiece
 //@   props C04
 //@   requires c <= 1 && p <= 6 && onBoard(sq)
-//@   requires p == 0 || !bitAt(occOf(b), sq)
+//@   requires p == 0 || !bitAt(occB(b), sq)
 //@   callers-inline fold delta
 //@   split sq in 0..63
 //@   split c in 0..1
@@ -457,3 +457,138 @@ package board
 //@   trusted the start position is a parsed constant; its material passes the piece-count gate (TestFENConversion covers it)
 //@   ensures result != nil && !body(result.InvalidPieceCount())
 //@   modifies nothing
+//@
+//@ # ---- C09: the direct stalemate test.  Soundness: if it answers true, an arbitrary move gm is not legal.
+//@ define gmv() = uint16(gm)
+//@ define gmFrom() = Square((gm >> 6) & 63)
+//@ define epNormalised(p) = epNormal(p)
+//@
+//@ define notA() = BitBoard(0xfefefefefefefefe)
+//@ define notH() = BitBoard(0x7f7f7f7f7f7f7f7f)
+//@ define wcSet(pawns, opp) = (((pawns & notA()) << 7) | ((pawns & notH()) << 9)) & opp
+//@ define wcTo(pawns, opp) = wcSet(pawns, opp).LowestSet()
+//@ define wcFrom(pawns, opp) = ite(bit((pawns & notA()) << 7, wcTo(pawns, opp)), wcTo(pawns, opp) - 7, wcTo(pawns, opp) - 9)
+//@ define bcSet(pawns, opp) = (((pawns & notH()) >> 7) | ((pawns & notA()) >> 9)) & opp
+//@ define bcTo(pawns, opp) = bcSet(pawns, opp).LowestSet()
+//@ define bcFrom(pawns, opp) = ite(bit((pawns & notH()) >> 7, bcTo(pawns, opp)), bcTo(pawns, opp) + 7, bcTo(pawns, opp) + 9)
+//@
+//@ # the first occupied square on the ray from s away from k (the pinner, when s is pinned to k)
+//@ define beyond(k, s, occ) = (walkDir(uint8(s), occ, sgn8(fileOf(uint8(k)), fileOf(uint8(s))), sgn8(rankOf(uint8(k)), rankOf(uint8(s)))) & occ).LowestSet()
+//@
+//@ lemma castleNeedsStep(p $Pos, m $Mv)
+//@   props C09
+//@   hyp validPos(p) && isCastle(p, m) && legal(p, m)
+//@   concl legal(p, mkMv(mvFrom(m), midSq(m)))
+//@
+//@ func (*Board).IsStalemate
+//@   props C09
+//@   use castleNeedsStep(pos(b), gmv()) at exit
+//@   requires repOK(b) && validPos(pos(b)) && !inCheck(pos(b), uint8(b.STM)) && epNormalised(pos(b))
+//@   ensures [sound] implies(result, !legal(pos(b), gmv()))
+//@   modifies nothing
+//@   nopanic
+//@   timeout 300
+//@   # completeness: every `return false` names a legal move (witness)
+//@   at-return 1 requires [witness1*] legal(pos(b), witMove(pos(b), uint8((((pawns << 8) &^ occ) >> 8).LowestSet()), uint8((((pawns << 8) &^ occ) >> 8).LowestSet() + 8)))
+//@   at-return 2 requires [witness2*] legal(pos(b), witMove(pos(b), uint8(wcFrom(pawns, opp)), uint8(wcTo(pawns, opp))))
+//@   at-return 3 requires [witness3*] legal(pos(b), witMove(pos(b), uint8((((pawns >> 8) &^ occ) << 8).LowestSet()), uint8((((pawns >> 8) &^ occ) << 8).LowestSet() - 8)))
+//@   at-return 4 requires [witness4*] legal(pos(b), witMove(pos(b), uint8(bcFrom(pawns, opp)), uint8(bcTo(pawns, opp))))
+//@   at-return 5 requires [witness5*] legal(pos(b), mkMv(uint8(sq), uint8(((bishopWalk(uint8(sq), occ) | rookWalk(uint8(sq), occ)) &^ me).LowestSet()))) || legal(pos(b), mkMv(uint8(sq), uint8(beyond(kingSq, sq, occ))))
+//@   at-return 6 requires [witness6*] legal(pos(b), mkMv(uint8(sq), uint8((bishopWalk(uint8(sq), nocc) &^ me).LowestSet()))) || legal(pos(b), mkMv(uint8(sq), uint8(beyond(kingSq, sq, occ))))
+//@   at-return 7 requires [witness7*] legal(pos(b), mkMv(uint8(sq), uint8((rookWalk(uint8(sq), nocc) &^ me).LowestSet()))) || legal(pos(b), mkMv(uint8(sq), uint8(beyond(kingSq, sq, occ))))
+//@   at-return 8 requires [witness8*] legal(pos(b), mkMv(uint8(sq), uint8((knightSet(sqbit(uint8(sq))) &^ me).LowestSet())))
+//@   at-return 9 requires [witness9*] legal(pos(b), mkMv(uint8(kingSq), uint8(kMove.LowestSet())))
+//@   at-return 10 requires [witness10*] legal(pos(b), witMove(pos(b), uint8(piece.LowestSet()), uint8(targets.LowestSet())))
+//@   at-return 11 requires [witness11*] legal(pos(b), witMove(pos(b), uint8(piece.LowestSet()), uint8(targets.LowestSet()))) || legal(pos(b), witMove(pos(b), uint8(piece.LowestSet()), uint8((targets & (targets - 1)).LowestSet())))
+//@   at-return 12 requires [witness12*] legal(pos(b), mkMv(uint8(pawn.LowestSet()), uint8(b.EnPassant)))
+//@   loop 1: invariant pieces & ^pre(pieces) == 0 && implies(bit(pre(pieces) &^ pieces, gmFrom()), !legal(pos(b), gmv()))
+//@   loop 2: invariant pieces & ^pre(pieces) == 0 && implies(bit(pre(pieces) &^ pieces, gmFrom()), !legal(pos(b), gmv()))
+//@   loop 3: invariant pieces & ^pre(pieces) == 0 && implies(bit(pre(pieces) &^ pieces, gmFrom()), !legal(pos(b), gmv()))
+//@   loop 4: invariant pieces & ^pre(pieces) == 0 && implies(bit(pre(pieces) &^ pieces, gmFrom()), !legal(pos(b), gmv()))
+//@   loop 5: invariant kMoves & ^pre(kMoves) == 0 && implies(bit(b.Pieces[6] & b.Colors[b.STM], gmFrom()) && bit(pre(kMoves) &^ kMoves, Square(gm & 63)), !legal(pos(b), gmv())) && implies(bit(b.Pieces[6] & b.Colors[b.STM], gmFrom()) && bit(pre(kMoves) &^ kMoves, Square(midSq(gmv()))), !legal(pos(b), mkMv(mvFrom(gmv()), midSq(gmv()))))
+//@   loop 6: invariant pawns & ^pre(pawns) == 0 && implies(bit(pre(pawns) &^ pawns, gmFrom()) && !(b.EnPassant != 0 && Square(gm & 63) == b.EnPassant), !legal(pos(b), gmv()))
+//@   loop 7: invariant pawns & ^pre(pawns) == 0 && implies(bit(pre(pawns) &^ pawns, gmFrom()) && Square(gm & 63) == b.EnPassant, !legal(pos(b), gmv()))
+//@
+//@ # ---- Attackers: for a single target square, the pieces of `color` attacking it
+//@ func (*Board).Attackers
+//@   props C09
+//@   requires color <= 1 && onehot(squares)
+//@   ensures [set] result == attackersTo(pos(b), uint8(color), occ, uint8(squares.LowestSet()))
+//@   modifies nothing
+//@   nopanic
+//@   loop 1: unroll 1
+//@
+//@ # the reverse look-up is the forward attack relation: a piece standing on s is in the set iff it attacks t
+//@ lemma attackersToForward(b *Board, c Color, occ BitBoard, s Square, t Square)
+//@   props C09
+//@   hyp repOK(b) && c <= 1 && onBoard(s) && onBoard(t)
+//@   concl has(attackersTo(pos(b), uint8(c), occ, uint8(t)), uint8(s)) == (has(colSet(pos(b), uint8(c)), uint8(s)) && ite(pieceAt(pos(b), uint8(s)) == 1, pawnAtt(uint8(c), uint8(s), uint8(t)), ite(pieceAt(pos(b), uint8(s)) == 2, knightAtt(uint8(s), uint8(t)), ite(pieceAt(pos(b), uint8(s)) == 3, has(bishopWalk(uint8(s), occ), uint8(t)), ite(pieceAt(pos(b), uint8(s)) == 4, has(rookWalk(uint8(s), occ), uint8(t)), ite(pieceAt(pos(b), uint8(s)) == 5, has(bishopWalk(uint8(s), occ) | rookWalk(uint8(s), occ), uint8(t)), ite(pieceAt(pos(b), uint8(s)) == 6, kingAtt(uint8(s), uint8(t)), false)))))))
+//@
+//@ # ---- Block: own pieces (king excluded) that can move onto one of the given empty squares.
+//@ # Completeness direction only (what IsCheckmate's soundness needs): every pseudo-legal non-king,
+//@ # non-e.p. move onto one of the squares starts from a square in the result.
+//@ define gmTo() = Square(gm & 63)
+//@ lemma reachersForward(b *Board, c Color, occ BitBoard, s Square, t Square)
+//@   props C09
+//@   hyp repOK(b) && c <= 1 && onBoard(s) && onBoard(t)
+//@   concl has(reachersTo(pos(b), uint8(c), occ, uint8(t)), uint8(s)) == (has(colSet(pos(b), uint8(c)), uint8(s)) && ite(pieceAt(pos(b), uint8(s)) == 2, has(knightSet(sqbit(uint8(s))), uint8(t)), ite(pieceAt(pos(b), uint8(s)) == 3, has(bishopSet(sqbit(uint8(s)), occ), uint8(t)), ite(pieceAt(pos(b), uint8(s)) == 4, has(rookSet(sqbit(uint8(s)), occ), uint8(t)), ite(pieceAt(pos(b), uint8(s)) == 5, has(bishopSet(sqbit(uint8(s)), occ) | rookSet(sqbit(uint8(s)), occ), uint8(t)), false)))))
+//@
+//@ func (*Board).Block
+//@   props C09
+//@   requires repOK(b) && color <= 1 && color == b.STM
+//@   ensures [complete] implies(bit(squares, gmTo()) && !bit(occB(b), gmTo()) && pseudo(pos(b), gmv()) && pieceAt(pos(b), uint8(gmFrom())) != 6 && !isEP(pos(b), gmv()), bit(result, gmFrom()))
+//@   modifies nothing
+//@   nopanic
+//@   use reachersForward(b, color, occB(b), gmFrom(), gmTo()) at exit
+//@   loop 1: invariant sqrs & ^pre(sqrs) == 0 && implies(bit(pre(sqrs) &^ sqrs, gmTo()) && has(reachersTo(pos(b), uint8(color), occ, uint8(gmTo())), uint8(gmFrom())), bit(res, gmFrom()))
+//@
+//@ # ---- C09: the direct checkmate test
+//@ # (known finding F6: an e.p. capture that interposes on the check line is not considered; such
+//@ #  positions satisfy the validity predicate but cannot arise in play - see known_findings.json)
+//@ define kingSqOf(b) = (b.Pieces[6] & b.Colors[b.STM]).LowestSet()
+//@ define checkerSq(b) = attackersTo(pos(b), uint8(b.STM ^ 1), occB(b), uint8(kingSqOf(b))).LowestSet()
+//@ define epInterposes(b) = b.EnPassant != 0 && has(between(uint8(kingSqOf(b)), uint8(checkerSq(b))), uint8(b.EnPassant))
+//@ # in check from exactly one piece, a legal move of a piece other than the king captures the checker
+//@ # (directly or en passant) or lands strictly between the king and the checker; in check from two
+//@ # pieces only the king moves
+//@ define specKingSq(p) = kingOf(p, stm(p))
+//@ lemma singleCheckReplies(p $Pos, m $Mv)
+//@   props C09
+//@   timeout 300
+//@   split pieceAt(p, mvFrom(m)) in 1..5
+//@   hyp validPos(p) && inCheck(p, stm(p)) && legal(p, m) && pieceAt(p, mvFrom(m)) != 6
+//@   concl [single] implies(onehot(attackersTo(p, other(stm(p)), occOf(p), tz8(specKingSq(p)))), capSq(p, m) == tz8(attackersTo(p, other(stm(p)), occOf(p), tz8(specKingSq(p)))) || has(between(tz8(specKingSq(p)), tz8(attackersTo(p, other(stm(p)), occOf(p), tz8(specKingSq(p))))), mvTo(m)))
+//@   concl [double] onehot(attackersTo(p, other(stm(p)), occOf(p), tz8(specKingSq(p))))
+//@
+//@ # a slider's attack implies that the squares strictly in between are empty
+//@ lemma slideBetween(s Square, t Square, occ BitBoard)
+//@   props C09
+//@   hyp onBoard(s) && onBoard(t)
+//@   concl implies(has(rookWalk(uint8(s), occ), uint8(t)) || has(bishopWalk(uint8(s), occ), uint8(t)), between(uint8(s), uint8(t)) & occ == 0)
+//@
+//@ define kq(b) = uint8(kingSqOf(b))
+//@ define cq(b) = uint8(checkerSq(b))
+//@ define chk(b) = attackersTo(pos(b), uint8(b.STM ^ 1), occB(b), kq(b))
+//@ define lg(b) = legal(pos(b), gmv())
+//@ func (*Board).IsCheckmate
+//@   props C09
+//@   requires repOK(b) && validPos(pos(b)) && inCheck(pos(b), uint8(b.STM)) && epNormalised(pos(b))
+//@   use singleCheckReplies(pos(b), gmv()) at exit
+//@   use attackersToForward(b, b.STM, occB(b), gmFrom(), checkerSq(b)) at exit
+//@   use attacks.inBetweenFilled(kingSqOf(b), checkerSq(b)) at exit
+//@   use slideBetween(kingSqOf(b), checkerSq(b), occB(b)) at exit
+//@   # stepping stones of the soundness argument (each proved, then assumed by the next)
+//@   assert [king] implies(result && gmFrom() == kingSqOf(b), !lg(b))
+//@   assert [single] implies(result && lg(b) && gmFrom() != kingSqOf(b), onehot(chk(b)) && (capSq(pos(b), gmv()) == cq(b) || has(between(kq(b), cq(b)), uint8(gmTo()))))
+//@   assert [capture] implies(result && lg(b) && gmFrom() != kingSqOf(b), capSq(pos(b), gmv()) != cq(b))
+//@   assert [block] implies(result && lg(b) && gmFrom() != kingSqOf(b) && !epInterposes(b), !has(between(kq(b), cq(b)), uint8(gmTo())))
+//@   ensures [sound] implies(result, !legal(pos(b), gmv()))
+//@   modifies nothing
+//@   nopanic
+//@   timeout 300
+//@   use attackersToForward(b, b.STM, occ, gmFrom(), attacker.LowestSet()) at loop2
+//@   use attacks.inBetweenFilled(kingSq, aSq) at loop3
+//@   use attacks.inBetweenFilled(kingSq, attacker.LowestSet()) at loop2
+//@   loop 1: invariant kMvs & ^pre(kMvs) == 0 && implies(bit(b.Pieces[6] & b.Colors[b.STM], gmFrom()) && bit(pre(kMvs) &^ kMvs, Square(gm & 63)), !legal(pos(b), gmv()))
+//@   loop 2: invariant defenders & ^pre(defenders) == 0 && onehot(attacker) && opp == b.Colors[b.STM^1] &^ ite(defenders == pre(defenders), BitBoard(0), attacker) && implies(bit(pre(defenders) &^ defenders, gmFrom()) && Square(gm & 63) == attacker.LowestSet() && !(b.EnPassant != 0 && Square(gm & 63) == b.EnPassant && bit(b.Pieces[1], gmFrom())), !legal(pos(b), gmv()))
+//@   loop 3: invariant defenders & ^pre(defenders) == 0 && implies(bit(pre(defenders) &^ defenders, gmFrom()) && bit(blocked, Square(gm & 63)), !legal(pos(b), gmv()))
